@@ -88,7 +88,8 @@ static int g_ev_errno_on_fail = 0;
 static int g_ev_seq[EV_SEQ_MAX];           /* order of the first calls */
 static long long g_ev_seq_off[EV_SEQ_MAX]; static int g_ev_seq_whence[EV_SEQ_MAX];
 
-static void ev_note(int id) { if (g_ev_calls < EV_SEQ_MAX) g_ev_seq[g_ev_calls] = id; g_ev_calls++; g_ev_n[id]++; g_ev_last = id; }
+static long long g_ev_seq_res[EV_SEQ_MAX]; static int g_ev_seq_errno[EV_SEQ_MAX]; static int g_ev_cur = 0;
+static void ev_note(int id) { g_ev_cur = g_ev_calls; if (g_ev_calls < EV_SEQ_MAX) { g_ev_seq[g_ev_calls] = id; g_ev_seq_res[g_ev_calls] = 0; g_ev_seq_errno[g_ev_calls] = 0; } g_ev_calls++; g_ev_n[id]++; g_ev_last = id; }
 static void ev_copy_path(char* dst, const char* src) {
     size_t i = 0;
     if (!src) { dst[0] = 0; return; }
@@ -98,7 +99,9 @@ static void ev_copy_path(char* dst, const char* src) {
 static void ev_reset(void) { int i; g_ev_calls = 0; for (i = 0; i < EV_COUNT; i++) g_ev_n[i] = 0; g_ev_last = EV_NONE; }
 
 /* a model call either succeeds (>= 0 result chosen by the harness / nondeterministically) or fails with -1 and an errno */
-#define EV_FAIL_OR(okexpr) do { ND(int, ev_fail); if (ev_fail) { ND(int, ev_errno); ASSUME(ev_errno > 0 && ev_errno < 134); errno = ev_errno; g_ev_errno_on_fail = ev_errno; g_ev_result = -1; return -1; } g_ev_result = (long long)(okexpr); return (okexpr); } while (0)
+#define EV_FAIL_OR(okexpr) do { ND(int, ev_fail); if (ev_fail) { ND(int, ev_errno); ASSUME(ev_errno > 0 && ev_errno < 134); errno = ev_errno; g_ev_errno_on_fail = ev_errno; g_ev_result = -1; \
+      if (g_ev_cur < EV_SEQ_MAX) { g_ev_seq_res[g_ev_cur] = -1; g_ev_seq_errno[g_ev_cur] = ev_errno; } return -1; } \
+    g_ev_result = (long long)(okexpr); if (g_ev_cur < EV_SEQ_MAX) g_ev_seq_res[g_ev_cur] = g_ev_result; return (okexpr); } while (0)
 
 int vh_close(int fd) { ev_note(EV_close); g_ev_fd = fd; EV_FAIL_OR(0); }
 int vh_closedir(DIR* d) { ev_note(EV_closedir); g_ev_dir = d; EV_FAIL_OR(0); }
@@ -108,8 +111,11 @@ off_t vh_lseek(int fd, off_t off, int whence) {
     { ND(long long, ev_pos); ASSUME(ev_pos >= 0); EV_FAIL_OR((off_t)ev_pos); }
 }
 static const struct iovec* g_ev_iov = 0;
-ssize_t vh_readv(int fd, const struct iovec* iov, int cnt) { ev_note(EV_readv); g_ev_fd = fd; g_ev_iov = iov; g_ev_cnt = cnt; { ND(long long, ev_n); ASSUME(ev_n >= 0); EV_FAIL_OR((ssize_t)ev_n); } }
-ssize_t vh_writev(int fd, const struct iovec* iov, int cnt) { ev_note(EV_writev); g_ev_fd = fd; g_ev_iov = iov; g_ev_cnt = cnt; { ND(long long, ev_n); ASSUME(ev_n >= 0); EV_FAIL_OR((ssize_t)ev_n); } }
+#define EV_IOV_MAX 3
+static struct iovec g_ev_iovcopy[EV_IOV_MAX];   /* the vector as it was at call time (the caller frees it afterwards) */
+static void ev_copy_iov(const struct iovec* iov, int cnt) { int i; for (i = 0; i < cnt && i < EV_IOV_MAX; i++) g_ev_iovcopy[i] = iov[i]; }
+ssize_t vh_readv(int fd, const struct iovec* iov, int cnt) { ev_note(EV_readv); g_ev_fd = fd; g_ev_iov = iov; g_ev_cnt = cnt; ev_copy_iov(iov, cnt); { ND(long long, ev_n); ASSUME(ev_n >= 0); EV_FAIL_OR((ssize_t)ev_n); } }
+ssize_t vh_writev(int fd, const struct iovec* iov, int cnt) { ev_note(EV_writev); g_ev_fd = fd; g_ev_iov = iov; g_ev_cnt = cnt; ev_copy_iov(iov, cnt); { ND(long long, ev_n); ASSUME(ev_n >= 0); EV_FAIL_OR((ssize_t)ev_n); } }
 int vh_open(const char* path, int flags, ...) {
     va_list ap; int mode;
     va_start(ap, flags); mode = va_arg(ap, int); va_end(ap);
